@@ -1,6 +1,7 @@
 package eng
 
 import (
+	"golang.org/x/tools/go/ssa"
 	"fmt"
 	"os"
 	"path/filepath"
@@ -125,5 +126,110 @@ func RunLockScan(repo string) int {
 		}
 	}
 	fmt.Printf("lockscan: %d returns with a mutex possibly held\n", n)
+
+	// part 2: re-entrant locking. A method "locks" when it calls Lock on a sync mutex
+	// reached from its own receiver; a call of such a method on the same receiver, made
+	// while the caller may hold the mutex (between its Lock and Unlock, or anywhere after
+	// the Lock when the Unlock is deferred), deadlocks (sync mutexes are not reentrant).
+	isSync := func(call *ssa.CallCommon, names ...string) bool {
+		f := call.StaticCallee()
+		if f == nil || f.Pkg == nil || f.Pkg.Pkg.Path() != "sync" {
+			return false
+		}
+		for _, nm := range names {
+			if f.Name() == nm {
+				return true
+			}
+		}
+		return false
+	}
+	fromRecv := func(fn *ssa.Function, v ssa.Value) bool {
+		if len(fn.Params) == 0 || fn.Signature.Recv() == nil {
+			return false
+		}
+		for i := 0; i < 6; i++ {
+			switch x := v.(type) {
+			case *ssa.FieldAddr:
+				v = x.X
+				continue
+			case *ssa.Parameter:
+				return x == fn.Params[0]
+			}
+			break
+		}
+		return false
+	}
+	locking := map[*ssa.Function]bool{}
+	for _, k := range keys {
+		fn := prog.Funcs[k]
+		for _, b := range fn.Blocks {
+			for _, in := range b.Instrs {
+				if c, ok := in.(*ssa.Call); ok && isSync(&c.Call, "Lock") && len(c.Call.Args) > 0 && fromRecv(fn, c.Call.Args[0]) {
+					locking[fn] = true
+				}
+			}
+		}
+	}
+	m := 0
+	for _, k := range keys {
+		fn := prog.Funcs[k]
+		if fn.Signature.Recv() == nil || len(fn.Params) == 0 {
+			continue
+		}
+		deferredUnlock := false
+		for _, b := range fn.Blocks {
+			for _, in := range b.Instrs {
+				if d, ok := in.(*ssa.Defer); ok && isSync(&d.Call, "Unlock") {
+					deferredUnlock = true
+				}
+			}
+		}
+		held := map[*ssa.BasicBlock]bool{}
+		step := func(b *ssa.BasicBlock, h bool, visit func(in ssa.Instruction, held bool)) bool {
+			for _, in := range b.Instrs {
+				if visit != nil {
+					visit(in, h)
+				}
+				if c, ok := in.(*ssa.Call); ok {
+					if isSync(&c.Call, "Lock") && len(c.Call.Args) > 0 && fromRecv(fn, c.Call.Args[0]) {
+						h = true
+					} else if isSync(&c.Call, "Unlock") && !deferredUnlock {
+						h = false
+					}
+				}
+			}
+			return h
+		}
+		for changed := true; changed; {
+			changed = false
+			for _, b := range fn.Blocks {
+				if step(b, held[b], nil) {
+					for _, sc := range b.Succs {
+						if !held[sc] {
+							held[sc] = true
+							changed = true
+						}
+					}
+				}
+			}
+		}
+		for _, b := range fn.Blocks {
+			step(b, held[b], func(in ssa.Instruction, h bool) {
+				c, ok := in.(*ssa.Call)
+				if !ok || !h {
+					return
+				}
+				callee := c.Call.StaticCallee()
+				if callee == nil || !locking[callee] || len(c.Call.Args) == 0 {
+					return
+				}
+				if p, ok := c.Call.Args[0].(*ssa.Parameter); ok && p == fn.Params[0] {
+					fmt.Printf("LOCKSCAN-REENTRANT %s calls %s with its mutex possibly held at %s\n", ShortKey(k), callee.Name(), prog.Prog.Fset.Position(in.Pos()))
+					m++
+				}
+			})
+		}
+	}
+	fmt.Printf("lockscan: %d calls of a locking method with the mutex possibly held\n", m)
 	return 0
 }
